@@ -565,3 +565,110 @@ func TestC20_registry_gauges(t *testing.T) {
 		}
 	}
 }
+
+// ---- every registered gauge is polled on every tick -------------------------------------------
+
+type c20PCase struct {
+	Backend string    `json:"backend"`
+	Gauges  []float64 `json:"gauges"`  // supplier values
+	Decline []bool    `json:"decline"` // supplier i answers ok=false
+	Ticks   int       `json:"ticks"`
+}
+
+func runC20P(_ *testing.T, c c20PCase) kit.Outcome {
+	period := 200 * time.Microsecond
+	b, err := newBackend(c.Backend, "p", period)
+	if err != nil {
+		return kit.Outcome{Harness: err.Error()}
+	}
+	defer b.close()
+	n := len(c.Gauges)
+	counts := make([]atomic.Int64, n)
+	for i := 0; i < n; i++ {
+		i := i
+		b.reg.RegisterGauge(fmt.Sprintf("g%02d", i), func() (float64, bool) {
+			counts[i].Add(1)
+			return c.Gauges[i], !(i < len(c.Decline) && c.Decline[i])
+		})
+	}
+	b.reg.Start()
+	max := func() int64 {
+		var m int64
+		for i := range counts {
+			if v := counts[i].Load(); v > m {
+				m = v
+			}
+		}
+		return m
+	}
+	if !waitFor(30*time.Second, func() bool { return max() >= int64(c.Ticks) }) {
+		hasPoller := strings.Contains(allStacks(), "MetricRegistry).run")
+		stopRegistry(b.reg)
+		if !hasPoller {
+			return kit.Viol(c.Backend+":start-no-poller", "after Start no goroutine is inside the registry's poll loop")
+		}
+		return kit.Outcome{Harness: "fewer than the requested ticks within 30 s (inconclusive)"}
+	}
+	stopRegistry(b.reg) // Stop waits for the poller: only whole ticks have happened
+	ticks := max()
+	for i := range counts {
+		if v := counts[i].Load(); v != ticks {
+			return kit.Viol(c.Backend+":gauge-skipped", "after Stop returned, gauge #%d of %d was polled %d times while another was polled %d times: every tick must poll every registered gauge (declining suppliers: %v)", i, n, v, ticks, c.Decline)
+		}
+	}
+	// forwarded values
+	if c.Backend == "datadog" {
+		_ = b.client.Flush()
+	}
+	lines := []string{}
+	if b.cap != nil {
+		lines = b.cap.take()
+	}
+	for i := 0; i < n; i++ {
+		declines := i < len(c.Decline) && c.Decline[i]
+		name := fmt.Sprintf("%sg%02d", b.prefix, i)
+		seen := false
+		if c.Backend == "gometrics" {
+			g, is := b.gmReg.Get(name).(gm.GaugeFloat64)
+			seen = is && g.Value() == c.Gauges[i]
+			if declines {
+				seen = is
+			}
+		} else {
+			for _, l := range lines {
+				if nm, v, ty, ok := parseStatsd(l); ok && nm == name && ty == "g" && (declines || v == c.Gauges[i]) {
+					seen = true
+				}
+			}
+		}
+		if !declines && !seen {
+			return kit.Viol(c.Backend+":gauge", "gauge %q was polled %d times with value %v but the backend does not show it", name, ticks, c.Gauges[i])
+		}
+		if declines && seen {
+			return kit.Viol(c.Backend+":declined-gauge-forwarded", "gauge %q declined (ok=false) every time, yet the backend shows a value for it", name)
+		}
+	}
+	anyDecline := false
+	for _, d := range c.Decline {
+		anyDecline = anyDecline || d
+	}
+	return kit.Outcome{NonTrivial: anyDecline && n >= 3, Labels: []string{"backend:" + c.Backend, fmt.Sprintf("declining:%v", anyDecline)}}
+}
+
+func TestC20_registry_pollall(t *testing.T) {
+	kit.RequireMode(t, "std")
+	kit.Check(t, kit.Prop[c20PCase]{
+		ID: "C20", Quick: 60, Thor: 1500,
+		Rule: "both registries with 1-16 gauges of which a generated subset answers ok=false: after Start .. Stop every gauge has been polled exactly once per tick (equal counts), accepted values are in the backend, declined ones are not; non-trivial = >=3 gauges with at least one declining",
+		Gen: func(t *rapid.T) c20PCase {
+			n := rapid.IntRange(1, 16).Draw(t, "n")
+			c := c20PCase{Backend: rapid.SampledFrom([]string{"gometrics", "datadog"}).Draw(t, "backend"), Ticks: rapid.IntRange(3, 12).Draw(t, "ticks")}
+			for i := 0; i < n; i++ {
+				c.Gauges = append(c.Gauges, float64(rapid.IntRange(0, 1000).Draw(t, "v")))
+				c.Decline = append(c.Decline, rapid.IntRange(0, 3).Draw(t, "decline") == 0)
+			}
+			return c
+		},
+		Run: runC20P, NoShrink: true,
+	})
+}
